@@ -112,6 +112,13 @@ def cases(tier, seed, prep=None):
                     "out_i": rng.randrange(len(OUTS)), "accept": rng.choice([True, True, False]),
                     "answer": rng.choice(["y", "y", "n", ""]), "pre": rng.choice(["absent", "absent", "file", "dir"]),
                     "members": pick_members(rng) if kind == "directory" else []})
+    # the destination name already exists as a symbolic link that leads out of the working directory
+    for i in range(90 if tier == "quick" else 3000):
+        kind = "file" if i % 2 == 0 else "directory"
+        out.append({"seed": seed * 1000003 + 560000 + i, "offer": kind, "name_i": rng.choice([0, 0, rng.randrange(len(NAMES))]),
+                    "out_i": rng.choice([0, 0, OUTS.index("pre.dir")]), "accept": rng.choice([True, False]),
+                    "answer": rng.choice(["y", "y", "n"]), "pre": ["symlink-dangling", "symlink-file", "symlink-dir"][i % 3],
+                    "members": pick_members(rng) if kind == "directory" else []})
     return out
 
 
@@ -220,8 +227,14 @@ def _run(spec, world, base):
     pre = spec["pre"]
     if bn and bn not in (".", "..") and pre != "absent" and "\x00" not in bn and len(bn) < 200 and "/" not in bn:
         target = os.path.join(cwd, bn)
+        if pre.startswith("symlink") and out == "pre.dir":
+            target = os.path.join(cwd, "pre.dir", bn)        # --output-file names an existing directory: the child is the destination
         if not os.path.lexists(target):
-            if pre == "file":
+            if pre.startswith("symlink"):
+                outside = os.path.join(base, "case", "outside-dir")
+                os.symlink({"symlink-dangling": os.path.join(outside, "not-there"), "symlink-file": os.path.join(outside, "keep.txt"),
+                            "symlink-dir": outside}[pre], target)
+            elif pre == "file":
                 with open(target, "wb") as f:
                     f.write(b"pre-existing destination file")
             else:
@@ -319,7 +332,8 @@ def _run(spec, world, base):
             if not allowed:
                 viol.append({"key": "C05/existing-file-clobbered", "msg": "%r changed from %r to %r (--output-file=%r)" % (k, v[:2], a and a[:2], out),
                              "witness": wit})
-    if out is None and pre != "absent" and bn:
+    # (a dangling link is "absent" for os.path.exists, which is what the receiver asks; it may be replaced, in place)
+    if out is None and pre not in ("absent", "symlink-dangling") and bn:
         if ro == "success":
             viol.append({"key": "C05/success-over-existing-destination", "msg": "destination %r existed (%s) and no --output-file was given, yet receive succeeded" % (bn, pre),
                          "witness": wit})
@@ -331,7 +345,7 @@ def _run(spec, world, base):
     evil = sum(1 for m in listed if m.startswith("..") or m.startswith("/") or "/../" in m or m in ("", ".", "..", "./", "../") or "evil" in m or m in ("link-to-outside", "setuid", "zeroperm", "dirperm-file"))
     return {"violations": viol, "nontrivial": nontrivial,
             "counters": {"writes_observed": len(log), "transfers_completed": int(completed), "refusals": int(refused),
-                         "evil_members": evil, "offer_" + spec["offer"]: 1, "rejected_by_receiver": int(ro != "success"),
+                         "evil_members": evil, "offer_" + spec["offer"]: 1, "pre_symlink_cases": int(str(pre).startswith("symlink")), "rejected_by_receiver": int(ro != "success"),
                          "paths_changed": len(changed)},
             "sets": {"receiver_errors": [type(rr.failure.value).__name__ + ":" + str(rr.failure.value)[:50]] if rr.failure else []},
             "sample": {"spec": spec, "offer_name": repr(name), "members": listed, "output_file": out, "pre": pre, "receiver": ro,
